@@ -1,8 +1,9 @@
 use crate::common::Property;
+pub mod c01;
 pub mod c02;
 
 pub fn all() -> Vec<&'static dyn Property> {
-    vec![&c02::C02]
+    vec![&c01::C01, &c02::C02]
 }
 
 pub fn by_id(id: &str) -> Option<&'static dyn Property> {
